@@ -260,6 +260,7 @@ def run(ctx):
     check_generated_samplers(ctx)          # the definitions regenerated from the source (Generated/Samplers.lean) vs the real functions
     from .genrays import check_generated_rays
     check_generated_rays(ctx)              # Generated/RayCreate.lean, RayCreateBatch.lean (ray creation, both APIs) vs the real functions
+    from .gensamplersmore import check_generated_samplers_more; check_generated_samplers_more(ctx)   # Generated/SamplersMore.lean (loop-built generators) vs the real functions
     more_generators(ctx)
 
 
